@@ -69,6 +69,12 @@ type Contract struct {
 	Trusted    bool // extern: assumed, not verified
 	NoSafety   bool
 	Opaque     bool // call sites always use the contract
+	Calls      []CallClause
+}
+
+type CallClause struct {
+	Callee string
+	C      Clause
 }
 
 type SpecFun struct {
@@ -220,7 +226,7 @@ func (db *SpecDB) LoadSpecFile(path string) error {
 			db.Axioms = append(db.Axioms, c)
 			db.Markers = append(db.Markers, "axiom "+c.Label)
 			cur = nil
-		case "requires", "ensures", "panics", "assigns", "loop", "property", "inline", "pure", "nosafety", "opaque", "params", "results":
+		case "requires", "ensures", "panics", "assigns", "loop", "property", "inline", "pure", "nosafety", "opaque", "params", "results", "calls":
 			if cur == nil {
 				return fail(fmt.Errorf("clause outside a contract"))
 			}
@@ -283,6 +289,17 @@ func (db *SpecDB) LoadSpecFile(path string) error {
 				for _, p := range strings.Split(rest, ",") {
 					cur.Props = append(cur.Props, strings.TrimSpace(p))
 				}
+			case "calls":
+				// calls <callee> [label:] <expr>  — must hold at every call of <callee> made (directly or through inlined code)
+				f := strings.SplitN(rest, " ", 2)
+				if len(f) != 2 {
+					return fail(fmt.Errorf("calls clause needs a callee and an expression"))
+				}
+				c, err := parseClause(f[1])
+				if err != nil {
+					return fail(err)
+				}
+				cur.Calls = append(cur.Calls, CallClause{Callee: strings.TrimSpace(f[0]), C: c})
 			case "inline":
 				cur.Inline = true
 			case "pure":
@@ -306,7 +323,7 @@ func (db *SpecDB) LoadSpecFile(path string) error {
 
 var keywords = map[string]bool{"func": true, "extern": true, "method": true, "ufun": true, "fun": true, "axiom": true, "const": true,
 	"requires": true, "ensures": true, "panics": true, "assigns": true, "loop": true, "property": true, "inline": true, "pure": true,
-	"nosafety": true, "opaque": true, "params": true, "results": true}
+	"nosafety": true, "opaque": true, "params": true, "results": true, "calls": true}
 
 func startsWithKeyword(s string) bool {
 	kw, _ := splitKeyword(s)
